@@ -6,7 +6,9 @@ EXPLANATION = 'Bounded / enumerated (nothing here is a deductive proof). Finite 
 
 def p_parts():
     from ._typemap import p_typemap
-    return [p_typemap]
+    from ._cats import p_cats
+    from ._handles import p_handles
+    return [p_typemap, p_cats, p_handles]
 
 
 def run(ctx):
